@@ -193,33 +193,8 @@ Fixpoint ab_loop (rec : search_fn) (b : BoardState) (depth ply beta : Z) (ms : l
       end end end
   end.
 
-(* the part of alpha_beta_search after the draw-table add, with the recursive calls as parameters *)
-Definition ab_body (rec : search_fn) (qrec : q_fn) (b : BoardState) (depth ply alpha beta : Z) (allow_null : bool)
-           (s : sstate) : res (Z * sstate) :=
-  let in_check_now := is_check b (to_move b) in
-  if (depth =? 0) && negb in_check_now then
-    qrec b alpha beta (with_table s (dt_remove (table s) b))
-  else
-  let depth := if depth =? 0 then depth + 1 else depth in
-  let alpha := Z.max alpha (- MATE_SCORE + ply) in
-  let beta := Z.min beta (MATE_SCORE - ply) in
-  if beta <=? alpha then leave b alpha s
-  else
-  (* null move *)
-  let null_result : res (option Z * sstate) :=
-    if allow_null && (NULL_MIN_DEPTH <=? depth) && negb in_check_now then
-      match rec (with_to_move b (opposite (to_move b))) (depth - NULL_REDUCTION) (ply + NULL_PLY_OFFSET)
-                (- beta) (- beta + 1) false s with
-      | Ok (v, s) => if beta <=? - v then Ok (Some beta, s) else Ok (None, s)
-      | Err e => Err e
-      | Panic p => Panic p
-      end
-    else Ok (None, s) in
-  match null_result with
-  | Err e => Err e
-  | Panic p => Panic p
-  | Ok (Some v, s) => leave b v s
-  | Ok (None, s) =>
+(* move generation, ordering, the first child with the full window, then the zero-window loop *)
+Definition ab_moves (rec : search_fn) (b : BoardState) (depth ply alpha beta : Z) (s : sstate) : res (Z * sstate) :=
   let moves := generate_moves zt b AllMoves in
   match moves with
   | [] => if is_check b (to_move b) then leave b (- (MATE_SCORE - ply)) s else leave b 0 s
@@ -244,9 +219,31 @@ Definition ab_body (rec : search_fn) (qrec : q_fn) (b : BoardState) (depth ply a
   let best_score := - v0 in
   if (alpha <? best_score) && (beta <=? best_score) then leave b best_score s
   else
-  let '(alpha, s) := if alpha <? best_score then (best_score, set_principle_variation s) else (alpha, s) in
-  ab_loop rec b depth ply beta rest alpha best_score s
-  end end end end end end.
+  if alpha <? best_score then ab_loop rec b depth ply beta rest best_score best_score (set_principle_variation s)
+  else ab_loop rec b depth ply beta rest alpha best_score s
+  end end end end end.
+
+(* the part of alpha_beta_search after the draw-table add, with the recursive calls as parameters *)
+Definition ab_body (rec : search_fn) (qrec : q_fn) (b : BoardState) (depth ply alpha beta : Z) (allow_null : bool)
+           (s : sstate) : res (Z * sstate) :=
+  let in_check_now := is_check b (to_move b) in
+  if (depth =? 0) && negb in_check_now then
+    qrec b alpha beta (with_table s (dt_remove (table s) b))
+  else
+  let depth := if depth =? 0 then depth + 1 else depth in
+  let alpha := Z.max alpha (- MATE_SCORE + ply) in
+  let beta := Z.min beta (MATE_SCORE - ply) in
+  if beta <=? alpha then leave b alpha s
+  else
+  (* null move *)
+  if allow_null && (NULL_MIN_DEPTH <=? depth) && negb in_check_now then
+    match rec (with_to_move b (opposite (to_move b))) (depth - NULL_REDUCTION) (ply + NULL_PLY_OFFSET)
+              (- beta) (- beta + 1) false s with
+    | Ok (v, s) => if beta <=? - v then leave b beta s else ab_moves rec b depth ply alpha beta s
+    | Err e => Err e
+    | Panic p => Panic p
+    end
+  else ab_moves rec b depth ply alpha beta s.
 
 (* ---- alpha_beta_search *)
 Fixpoint alpha_beta (fuel : nat) (b : BoardState) (depth ply alpha beta : Z) (allow_null : bool) (s : sstate)
